@@ -170,8 +170,8 @@ func runC10(c *Ctx) {
 	ruleSizeGuard(c, "stack", "mlink", "ring")
 	ruleEmptyAgreesLen(c, "stack", "Stack")
 	ruleEmptyAgreesLen(c, "mlink", "Queue")
-	ruleEmptyAgreesLen(c, "ring", "Ring")
-	ruleEmptyAgreesLen(c, "mlink", "List")
+	ruleEmptyPolarity(c, "ring", "Ring")
+	ruleEmptyPolarity(c, "mlink", "List")
 	c.rule("R-LEN-EFFECT", 3, "every path through a Stack method that rewrites the list leaves its length at L0+1 (Push, Add), L0−1 (Pop), 0 (Clear) or unchanged")
 	if lf := firstSliceField(P, "stack", "Stack"); lf != nil {
 		ruleLenEffect(c, "R-LEN-EFFECT", "stack", "Stack", lf, map[string]lform{
